@@ -336,7 +336,12 @@ class Ctx:
         t0 = time.time()
         cmd = [harness_bin("record"), driver, str(self.seed + seed_offset), str(n), trace,
                "5" if self.quick else "30"] + [str(a) for a in (args or [])]
-        p = subprocess.run(cmd, capture_output=True, text=True)
+        # size budget for the generators' scale shapes (see harness/src/bin/record.rs): TLC needs
+        # about a second per 25 KB of JSON, so the quick tier admits a few inputs of up to ~80 000
+        # bytes per driver run and the thorough tier (nearly) everything
+        big = kw.pop("big", None) or ((330000, 700000) if self.quick else (4000000, 12000000))
+        renv = dict(os.environ, VERIF_BIG_MAX=str(big[0]), VERIF_BIG_BUDGET=str(big[1]))
+        p = subprocess.run(cmd, capture_output=True, text=True, env=renv)
         if p.returncode != 0:
             sys.stderr.write(p.stdout + p.stderr)
             raise ToolFailure("record failed: " + " ".join(cmd))
